@@ -26,14 +26,16 @@ typedef struct rt_scenario_s {
 	void (*describe) (FILE *f);               /* one JSON value describing the current round (sample) */
 	void (*summary) (FILE *f);                /* extra JSON members `"k":v,...` (no braces; may be NULL) */
 	void (*dump_state) (FILE *f);             /* one JSON value with scenario state for a witness (may be NULL) */
-	int (*adversary) (int self, const int *runnable, int n); /* Mode B: optional scheduling adversary,
-	                                             returns tid to run or -1 for "no opinion" */
+	int (*adversary) (int self, int forced, const int *runnable, int n); /* Mode B: optional scheduling adversary: self = thread at
+	                                             the scheduling point (or -1), forced = it yields; returns tid to run or -1 for "no opinion" */
 } rt_scenario;
 extern rt_scenario rt_scen;
 
 /* ---- configuration ---------------------------------------------------------------- */
 int rt_mode_b (void);                 /* 1 = serialized schedule fuzzer, 0 = free running */
 int rt_tier_thorough (void);
+int rt_self (void);                   /* worker id of the calling thread, -1 outside workers */
+void rt_wake_delay_us (int tid, unsigned us);  /* Mode A: thread tid sleeps this long after every futex wake-up */
 uint64_t rt_round (void);             /* current round number */
 long rt_param (const char *name, long dflt);  /* --param name=value */
 
@@ -82,6 +84,7 @@ void rt_watch_word (int idx, const volatile void *addr, rt_word_cb cb); /* idx i
 /* ---- events for interleaving signatures (Mode A) and histories ----------------------- */
 uint64_t rt_stamp (void);             /* global logical stamp (monotone) */
 void rt_ev (uint32_t code);           /* boundary event for the round signature */
+void rt_distinct_add (uint64_t h);    /* input-space scenarios: count case h as distinct and non-trivial (one thread at a time) */
 void rt_mark_nontrivial (void);       /* this round contained the contention the property is about */
 void rt_cover (int counter);          /* coverage counters 0..63, summed per process */
 void rt_cover_add (int counter, long v);
@@ -95,9 +98,12 @@ void rt_fault_random (unsigned ppm);  /* random EINTR/EAGAIN injection probabili
 unsigned long rt_faults_fired (void);
 
 /* ---- malloc failure plan (needs -Wl,--wrap=malloc) ------------------------------------ */
-void rt_malloc_fail_nth (long n, const void *lo, const void *hi); /* fail n-th malloc whose caller is in [lo,hi) ; n<0 off */
-long rt_malloc_seen (void);           /* mallocs from that range seen since plan was set */
-long rt_malloc_other (void);
+void rt_malloc_ranges_clear (void);
+void rt_malloc_range_add (const void *lo, const void *hi);   /* code range whose malloc calls are candidates */
+void rt_malloc_fail_nth (long n);     /* fail the n-th (from 0) candidate malloc from now on; n<0: none; resets the counters */
+long rt_malloc_seen (void);           /* candidate mallocs seen since the plan was set */
+long rt_malloc_other (void);          /* other (wrapped) mallocs seen, e.g. waiter-pool allocations */
+long rt_malloc_failed (void);
 
 /* ---- verdicts ------------------------------------------------------------------------ */
 /* Record a violation: writes the witness and terminates the process (exit code 10). */
